@@ -580,6 +580,21 @@ def run(pid, tier):
                           % (keep, user_dir, why), {"kind": "scrut-test-run", "observation": obs, "harness": "end-to-end sample"})
     rep.subclaims[-1]["concrete_validation"] = {"inputs": runs, "mismatches": bad, "wall_s": round(time.time() - t0, 1),
                                                 "function": "real `scrut test` runs with probe commands; $TMPDIR listed before/after"}
+    # the same for `scrut update` (its own run function, the same environment code)
+    from props import c18u
+    hu = c18u.h_update_env(1 if tier == "quick" else 2)
+    hu.models_cls = lambda: c18u.UpdateModels(prog)
+    resu = e2.run_with_raw(prog, hu, max_witnesses=3)
+    for model, r in resu.raw_witnesses[:3]:
+        n = r.ctx.notes
+        left = sorted(p for p, e in n["ledger"].dirs.items() if e["by"] == "scrut")
+        rep.violation("update:directories", "commands::update::Args::run on documents %s (keep=%s, --work-directory=%s): directories left %s, files written %s, executor calls %s "
+                      "(decided on its MIR over the file-system ledger)" % (n["docs"], n["flags"][0], n["flags"][1], left, n.get("written"),
+                                                                         [(c["work"], c["work_exists"], c["tmp_exists"]) for c in n.get("calls", [])]),
+                      {"kind": "mir-only", "documents": str(n["docs"]), "harness": hu.name})
+    e2.record(rep, hu, resu, status=("violated" if resu.witnesses else ("undecided" if resu.unsupported else "holds")))
+    for u in resu.unsupported[:3]:
+        rep.undecided.append(u)
     # SCRUT_TEST=<path>:<line> is set by the executor: decided on the whole-function run of StatefulExecutor::execute_all
     from common import build_native
     from mir_exec import load_program
@@ -599,7 +614,8 @@ def run(pid, tier):
         "functions_encoded": ["scrut(bin)::commands::test::Args::run", "TestEnvironment::new", "TestEnvironment::init_test_file", "TestFileEnvironment::build_work_directory",
                               "TestFileEnvironment::build_env_vars", "create_random_sub_directory", "UniqueNamer::new / next_name", "split_path_abs", "canonical_path",
                               "From<&EnvironmentDirectory> for PathBuf / String", "EnvironmentDirectory::as_path_buf", "TestCaseConfig::with_environment",
-                              "drop glue of TestEnvironment (as executed drop statements)", "<StatefulExecutor as Executor>::execute_all (SCRUT_TEST)"],
+                              "drop glue of TestEnvironment (as executed drop statements)", "<StatefulExecutor as Executor>::execute_all (SCRUT_TEST)",
+                              "scrut(bin)::commands::update::Args::run"],
         "evaluations": tot, "distinct_nontrivial": max(tot, 2),
         "rule": "one case = one feasible path of run() for one flag combination and one list of per-document executor results",
         "samples": [s for sc in rep.subclaims for s in sc.get("samples", [])][:3] or ["see subclaims"],
@@ -607,5 +623,6 @@ def run(pid, tier):
     })
     rep.assumptions += ["tempfile::TempDir: with_prefix(_in) creates a fresh directory, dropping it removes the tree, into_path keeps it (its documented contract)",
                         "paths are concrete strings; dunce::canonicalize is the identity; the shell is /bin/bash",
-                        "panics, signals, several scrut processes at once, and the update / create commands are outside"]
+                        "panics, signals, several scrut processes at once and the create command are outside; for `scrut update` the generators, the change preview, "
+                        "the overwrite question and the file write are stubs"]
     return rep.finish()
